@@ -12,6 +12,7 @@ import (
 	"strconv"
 	"strings"
 	"time"
+	"unicode/utf8"
 )
 
 // ---------- interactive solver session ----------
@@ -304,6 +305,7 @@ type extractor struct {
 	memo  map[string]*MVal
 	bad   []string
 	epoch int
+	lenient bool // results: unknown dynamic types are fine (only nil-ness is compared)
 }
 
 func (x *extractor) heap(base string) (string, bool) {
@@ -357,6 +359,9 @@ func (x *extractor) extract(term string, t types.Type, depth int) *MVal {
 				x.bad = append(x.bad, "string not representable")
 			}
 			mv.Kind, mv.Str = "string", s
+			if rs, ok := x.runeString(term); ok {
+				mv.Str = rs
+			}
 		case u.Info()&types.IsFloat != 0:
 			f, ok := parseFPVal(v)
 			if !ok {
@@ -522,7 +527,9 @@ func (x *extractor) extract(term string, t types.Type, depth int) *MVal {
 		}
 		if dynT == nil {
 			mv.Bad = fmt.Sprintf("dynamic type id %d is not a known Go type", tid.Int64())
-			x.bad = append(x.bad, mv.Bad)
+			if !x.lenient {
+				x.bad = append(x.bad, mv.Bad)
+			}
 			return mv
 		}
 		mv.Dyn = x.extract(x.c.unbox(term, dynT, nil), dynT, depth+1)
@@ -531,4 +538,35 @@ func (x *extractor) extract(term string, t types.Type, depth int) *MVal {
 	mv.Kind, mv.Bad = "unknown", "unsupported type "+t.String()
 	x.bad = append(x.bad, mv.Bad)
 	return mv
+}
+
+// runeString rebuilds a string from the (offset, rune, width) abstraction used for `range` over strings,
+// when the model constrains it: the sequence must tile exactly the byte length with valid UTF-8 widths.
+func (x *extractor) runeString(term string) (string, bool) {
+	if !x.c.declSet["runeAt"] || !x.c.declSet["widthAt"] {
+		return "", false
+	}
+	n, ok := x.intOf("(blen " + term + ")")
+	if !ok || n.Sign() <= 0 || n.Cmp(big.NewInt(64)) > 0 {
+		return "", false
+	}
+	var b strings.Builder
+	off := int64(0)
+	for off < n.Int64() {
+		r, ok1 := x.intOf(fmt.Sprintf("(runeAt %s %d)", term, off))
+		w, ok2 := x.intOf(fmt.Sprintf("(widthAt %s %d)", term, off))
+		if !ok1 || !ok2 || !r.IsInt64() || !w.IsInt64() {
+			return "", false
+		}
+		rv := rune(r.Int64())
+		if r.Int64() < 0 || r.Int64() > 0x10ffff || !utf8.ValidRune(rv) || int64(utf8.RuneLen(rv)) != w.Int64() {
+			return "", false
+		}
+		b.WriteRune(rv)
+		off += w.Int64()
+	}
+	if off != n.Int64() {
+		return "", false
+	}
+	return b.String(), true
 }
